@@ -40,6 +40,8 @@ def snap(x):
                 tuple(sorted((repr(k), snap(v)) for k, v in getattr(x, "_patch", {}).items())))
     if type(x).__name__ == "Peps2Layers":
         return ("P2", snap(x.ket), None if x._bra is None else snap(x._bra))
+    if isinstance(x, np.ndarray):
+        return ("A", x.tobytes(), str(x.dtype), x.shape)
     if isinstance(x, (list, tuple)):
         return ("L",) + tuple(snap(v) for v in x)
     if isinstance(x, dict):
@@ -168,8 +170,18 @@ def part_function_table(ctx):
         if a.isdiag and kind == "mask":
             table += [("bitwise_not", lambda: a.bitwise_not()), ("apply_mask", lambda: a.apply_mask(yastn.ones(cfg, legs=[l, l.conj()]), axes=0)),
                       ("mask-sum", lambda: a.trace())]
+        # dictionaries handed to the de-serialisers are operands too
+        lvl = rng.choice([0, 1, 2])
+        dct = a.to_dict(level=lvl)
+        dsplit = yastn.split_data_and_meta(a.to_dict(level=0))
+        table += [(f"from_dict(level={lvl},config)", lambda: yastn.Tensor.from_dict(dct, config=cfg)), (f"from_dict(level={lvl})", lambda: yastn.Tensor.from_dict(dct)),
+                  (f"yastn.from_dict(level={lvl},config)", lambda: yastn.from_dict(dct, config=cfg)),
+                  ("split_data_and_meta(dict)", lambda: yastn.split_data_and_meta(dct)),
+                  ("combine_data_and_meta", lambda: yastn.combine_data_and_meta(*dsplit)),
+                  ("load_from_dict", lambda: yastn.load_from_dict(cfg, a.save_to_dict()))]
         rng.shuffle(table)
-        for name, fn in table[:10]:
+        for name, fn in table[:12]:
+            sd = (snap(dct), snap(list(dsplit)))
             sa, sv = snap(a), snap(view)
             sb = snap(b) if b is not None else None
             try:
@@ -186,6 +198,8 @@ def part_function_table(ctx):
                 ctx.fail("oracle", f"c15:function:{name}:view", f"{name}() modified a tensor sharing storage with its operand", case=case, concrete=True)
             if b is not None and snap(b) != sb:
                 ctx.fail("oracle", f"c15:function:{name}:second", f"{name}() modified its second operand", case=case, concrete=True)
+            if (snap(dct), snap(list(dsplit))) != sd:
+                ctx.fail("oracle", f"c15:function:{name.split('(')[0]}:dict", f"{name} modified the dictionary / data-meta pair handed to it", case=case, concrete=True)
 
 
 # ---- (B) ------------------------------------------------------------------------------------------------------
@@ -341,8 +355,35 @@ def part_mps(ctx):
             terms = [mps.Hterm(1.0, (k, k + 1), (ops.cp(), ops.c())) for k in range(N - 1)] + \
                     [mps.Hterm(1.0, (k + 1, k), (ops.cp(), ops.c())) for k in range(N - 1)] + [mps.Hterm(0.2, (k,), (ops.n(),)) for k in range(N)]
         H = mps.generate_mpo(I, terms)
-        objs = {"psi": psi, "phi": phi, "H": H, "I": I}
-        calls = [
+        psiC = psi.copy()
+        try:   # a state holding a central block (as left by orthogonalize_site_ / 2-site updates)
+            psiC.orthogonalize_site_(rng.randint(0, N - 1), to=rng.choice(["first", "last"]), normalize=False)
+        except Exception as e:  # noqa: BLE001
+            ctx.count(f"C:central-raised:{type(e).__name__}")
+        o_svd, o_eigs, o_expmv = {"D_total": 4, "tol": 1e-10}, {"hermitian": True, "which": "SR"}, {"hermitian": True, "tol": 1e-10}
+        dC = psiC.to_dict(level=rng.choice([0, 1, 2]))
+        objs = {"psi": psi, "phi": phi, "H": H, "I": I, "psiC": psiC, "opts_svd": o_svd, "opts_eigs": o_eigs, "opts_expmv": o_expmv, "dict(psiC)": dC}
+
+        def to_h5(x):
+            import h5py, tempfile, os as _os
+            with tempfile.TemporaryDirectory() as tmpd:
+                with h5py.File(_os.path.join(tmpd, "x.h5"), "w") as f:
+                    x.save_to_hdf5(f, "state/")
+        extra_calls = [
+            ("C.to_dict", lambda: psiC.to_dict(level=rng.choice([0, 1, 2]))), ("C.save_to_dict", lambda: psiC.save_to_dict()), ("C.save_to_hdf5", lambda: to_h5(psiC)),
+            ("save_to_hdf5", lambda: to_h5(psi)), ("C.norm", lambda: psiC.norm()), ("C.get_entropy", lambda: psiC.get_entropy()),
+            ("C.get_Schmidt_values", lambda: psiC.get_Schmidt_values()), ("C.measure_overlap", lambda: mps.measure_overlap(psiC, psiC)),
+            ("C.measure_mpo", lambda: mps.measure_mpo(psiC, H, psiC)), ("C.to_tensor", lambda: psiC.to_tensor() if N <= 4 else None),
+            ("C.add", lambda: mps.add(psiC, psiC)), ("C.matmul", lambda: H @ psiC), ("C.copy", lambda: psiC.copy()), ("C.shallow_copy", lambda: psiC.shallow_copy()),
+            ("from_dict(dict)", lambda: mps.MpsMpoOBC.from_dict(dC) if hasattr(mps.MpsMpoOBC, "from_dict") else None),
+            ("yastn.from_dict(dict,config)", lambda: yastn.from_dict(dC, config=psi.config)),
+            ("dmrg_(opts)", lambda: mps.dmrg_(psi.copy(), H, method="2site", max_sweeps=1, opts_svd=o_svd, opts_eigs=o_eigs)),
+            ("tdvp_(opts)", lambda: list(mps.tdvp_(psi.copy(), H, times=(0, 0.05), dt=0.05, method=rng.choice(["1site", "2site", "12site"]), opts_svd=o_svd, opts_expmv=o_expmv))),
+            ("compression_(opts)", lambda: mps.compression_(psi.copy(), [H, psi], method="2site", max_sweeps=1, opts_svd=o_svd)),
+            ("truncate_(opts)", lambda: (lambda x: (x.canonize_(to="last"), x.truncate_(to="first", opts_svd=o_svd)))(psi.copy())),
+            ("zipper(opts)", lambda: mps.zipper(H, psi, opts_svd=o_svd)),
+        ]
+        calls = extra_calls + [
             ("add", lambda: mps.add(psi, phi, amplitudes=[1.0, -2.0])),
             ("matmul", lambda: H @ psi), ("mpo@mpo", lambda: H @ H), ("smul", lambda: 3.0 * psi), ("conj", lambda: psi.conj()),
             ("T", lambda: H.T), ("H", lambda: H.H), ("reverse_sites", lambda: psi.reverse_sites()), ("copy", lambda: psi.copy()),
@@ -361,11 +402,16 @@ def part_mps(ctx):
             ("is_canonical", lambda: psi.is_canonical(to="first")),
         ]
         rng.shuffle(calls)
-        for name, fn in calls[: (12 if ctx.quick else len(calls))]:
+        from ..core import time_limit, CaseTimeout
+        for name, fn in calls[: (20 if ctx.quick else len(calls))]:
             before = {k: snap(v) for k, v in objs.items()}
             opsnap = [snap(t.operators) for t in terms]
             try:
-                fn()
+                with time_limit(15):
+                    fn()
+            except CaseTimeout:
+                ctx.count(f"C:call-timeout:{name}")
+                continue
             except Exception as e:  # noqa: BLE001
                 ctx.count(f"C:raised:{name}:{type(e).__name__}")
             ctx.count(f"C:call:{name}")
